@@ -383,3 +383,176 @@ pub fn drive_toroidal(cx: &mut Ctx) {
         }
     }
 }
+
+// ---------------------------------------------------------------------------------------
+// C14: determinism and order independence
+// ---------------------------------------------------------------------------------------
+use crate::replay::replay_case;
+
+fn opts_order_sensitive(o: &Opts) -> bool {
+    o.order == 0 // Input order: the result may depend on the caller's order
+}
+
+fn key_of(d: usize, kname: &str, g: &str, ctor: &str, o: &Opts, pts: &[Vec<i64>], with_order: bool) -> String {
+    let mut p: Vec<Vec<i64>> = pts.to_vec();
+    if !with_order {
+        p.sort();
+    }
+    format!("D{d}|{kname}|{}|{g}|{ctor}|{}|{:?}", profile(), o.name(), p)
+}
+
+fn det_construct<K: Kern<D>, const D: usize>(cx: &mut Ctx, pts: &[Vec<i64>], uuids: &[u64], ctor: Ctor, g: delaunay::core::triangulation::TopologyGuarantee, o: Opts) -> Option<Dt<K, D>> {
+    let input: Vec<VIn> = pts.iter().zip(uuids.iter()).map(|(p, &u)| VIn::lattice(u, p.clone(), Some((u % 1000) as i32))).collect();
+    cx.tr.dkey = key_of(D, K::NAME, &format!("{g:?}"), &format!("{ctor:?}"), &o, pts, opts_order_sensitive(&o));
+    let r = op_construct::<K, D>(&mut cx.tr, 0, ctor, g, o, &input);
+    cx.tr.dkey.clear();
+    r
+}
+
+fn determinism_case<K: Kern<D>, const D: usize>(cx: &mut Ctx, r: &mut Rng, idx: usize) {
+    let g = GUARANTEES[idx % 3];
+    cx.start_case(format!("C14 determinism D={D} k={} i={idx}", K::NAME));
+    let hi = max_coord(D);
+    let n = (D + 2 + r.below(4)).min(max_points(D) - 1);
+    let mut pts = match idx % 4 {
+        0 | 1 => gp_points(r, D, n.min(7), hi),
+        2 => random_points(r, D, n, hi),
+        _ => degenerate_points(r, D, n, hi),
+    };
+    if pts.len() < D + 1 {
+        return;
+    }
+    // ties: an exact coordinate duplicate with a different uuid (dedup policies decide)
+    if idx % 5 == 4 {
+        let p = r.pick(&pts).clone();
+        pts.push(p);
+    }
+    let uuids: Vec<u64> = (0..pts.len()).map(|_| cx.fresh_uuid()).collect();
+    let o = Opts { order: [3, 1, 2, 0][idx % 4], dedup: (idx / 4) % 3, simplex: (idx / 12) % 2, retry: [0, 1, 3][(idx / 2) % 3] };
+    let ctor = CTORS[1 + idx % 4];
+    // (a) the same slice twice
+    for _ in 0..2 {
+        if let Some(dt) = det_construct::<K, D>(cx, &pts, &uuids, ctor, g, o) {
+            crate::ops2::op_canon(&mut cx.tr, 0, &dt, 7);
+        }
+    }
+    // (b) permutations of the slice (all for n <= 4, else sampled)
+    let perms = crate::pure::permutations(pts.len(), if cx.thorough { 30 } else { 6 }, r);
+    for p in perms.iter().take(if cx.thorough { 30 } else { 6 }) {
+        let pp: Vec<Vec<i64>> = p.iter().map(|&i| pts[i].clone()).collect();
+        let uu: Vec<u64> = p.iter().map(|&i| uuids[i]).collect();
+        det_construct::<K, D>(cx, &pp, &uu, ctor, g, o);
+    }
+    // (c) every ordering strategy and both kernels must give THE Delaunay triangulation in general
+    //     position (Canon event); the incremental route too
+    for order in 0..4 {
+        let oo = Opts { order, ..o };
+        if let Some(dt) = det_construct::<K, D>(cx, &pts, &uuids, Ctor::WithOptions, g, oo) {
+            crate::ops2::op_canon(&mut cx.tr, 0, &dt, 7);
+        }
+    }
+    {
+        let mut dt = op_empty::<K, D>(&mut cx.tr, 1, g);
+        let mut ok = true;
+        for (p, &u) in pts.iter().zip(uuids.iter()) {
+            let v = VIn::lattice(u + 5_000_000, p.clone(), None);
+            if !op_insert(&mut cx.tr, 1, &mut dt, &v, false) {
+                ok = false;
+                break;
+            }
+        }
+        if ok {
+            crate::ops2::op_canon(&mut cx.tr, 1, &dt, 7);
+        }
+    }
+    // (d) four threads at once (thread-local state must not leak into results)
+    {
+        let s = cx.tr.s;
+        let handles: Vec<_> = (0..4)
+            .map(|_| {
+                let pts = pts.clone();
+                let uuids = uuids.clone();
+                std::thread::spawn(move || {
+                    let vs: Vec<_> = pts.iter().zip(uuids.iter()).map(|(p, &u)| VIn::lattice(u, p.clone(), Some((u % 1000) as i32)).vertex::<D>(s)).collect();
+                    Dt::<K, D>::with_topology_guarantee_and_options(&K::default(), &vs, g, o.build(s)).ok()
+                })
+            })
+            .collect();
+        let input: Vec<VIn> = pts.iter().zip(uuids.iter()).map(|(p, &u)| VIn::lattice(u, p.clone(), Some((u % 1000) as i32))).collect();
+        for h in handles {
+            let res = h.join().ok().flatten();
+            cx.tr.dkey = key_of(D, K::NAME, &format!("{g:?}"), "WithOptions", &o, &pts, opts_order_sensitive(&o));
+            crate::ops2::emit_construct_result::<K, D>(&mut cx.tr, 0, "WithOptions", g, o, &input, res.as_ref(), "thread");
+            cx.tr.dkey.clear();
+        }
+    }
+}
+
+pub fn drive_determinism(cx: &mut Ctx, out_path: &str) {
+    let per_dim = if cx.thorough { 60 } else { 10 };
+    for d in 2..=5usize {
+        for i in 0..per_dim {
+            let mut r = Rng::new(cx.seed * 8_000_009 + (d * 100_000 + i) as u64);
+            if !cx.mine() {
+                continue;
+            }
+            let k = (i / 2) % 2;
+            dispatch!(d, k, determinism_case(cx, &mut r, i));
+        }
+    }
+    // (e) across processes: re-execute this trace's Construct events in a child process and append the
+    //     child's events (same determinism keys) - TLC then compares them through `memo`
+    cx.tr.flush();
+    let exe = std::env::current_exe().expect("current exe");
+    let child_out = format!("{out_path}.child");
+    let st = std::process::Command::new(exe).args(["detchild", "--hist", out_path, "--out", &child_out]).status();
+    if let Ok(s) = st {
+        if s.success() {
+            if let Ok(text) = std::fs::read_to_string(&child_out) {
+                // interleave: for every parent case append the child's Construct events of the same case
+                cx.tr.append_raw_cases(&text);
+            }
+        }
+    }
+    let _ = std::fs::remove_file(&child_out);
+}
+
+/// child process of the determinism driver: replays only Reset and Construct events
+pub fn drive_detchild(tr: &mut Tracer, parent_trace: &str) {
+    let text = std::fs::read_to_string(parent_trace).expect("read parent trace");
+    let mut case: Vec<serde_json::Value> = Vec::new();
+    let flush = |tr: &mut Tracer, case: &mut Vec<serde_json::Value>| {
+        if case.is_empty() {
+            return;
+        }
+        let d = case.iter().find_map(|e| e["args"]["D"].as_u64()).unwrap_or(0) as usize;
+        let k = case.iter().find_map(|e| e["args"]["kernel"].as_str().map(str::to_string)).unwrap_or_default();
+        match (d, k.as_str()) {
+            (2, "Fast") => replay_case::<FastKernel<f64>, 2>(tr, case),
+            (2, _) => replay_case::<RobustKernel<f64>, 2>(tr, case),
+            (3, "Fast") => replay_case::<FastKernel<f64>, 3>(tr, case),
+            (3, _) => replay_case::<RobustKernel<f64>, 3>(tr, case),
+            (4, "Fast") => replay_case::<FastKernel<f64>, 4>(tr, case),
+            (4, _) => replay_case::<RobustKernel<f64>, 4>(tr, case),
+            (5, "Fast") => replay_case::<FastKernel<f64>, 5>(tr, case),
+            (5, _) => replay_case::<RobustKernel<f64>, 5>(tr, case),
+            _ => {}
+        }
+        case.clear();
+    };
+    for line in text.lines() {
+        if line.trim().is_empty() {
+            continue;
+        }
+        let e: serde_json::Value = serde_json::from_str(line).unwrap();
+        match e["ev"].as_str().unwrap_or("") {
+            "Reset" => {
+                flush(tr, &mut case);
+                case.push(e);
+            }
+            "Construct" if e["args"]["dkey"].as_str().is_some_and(|s| !s.is_empty()) && e["args"]["note"].as_str() != Some("thread") => case.push(e),
+            _ => {}
+        }
+    }
+    flush(tr, &mut case);
+}
